@@ -37,6 +37,19 @@ let () =
             | Some m -> Printf.printf "M %s %d\n" id (if m then 1 else 0)));
         Printf.printf "G %s %d\n" id (if gate_case !tris then 1 else 0)
       end else
+      if String.length line > 3 && String.sub line 0 3 = "HI " then begin
+        (* HI id s0 p0 s1 p1 ... : extracted is_manifold / halfedge_inv on the IMPLEMENTATION's arrays *)
+        let toks = Array.of_list (List.filter (fun s -> s <> "") (String.split_on_char ' ' line)) in
+        let id = toks.(1) in
+        let n = (Array.length toks - 2) / 2 in
+        let h = ref [] in
+        for e = n - 1 downto 0 do
+          h := (z_of_int (int_of_string toks.(2 + 2 * e)), z_of_int (int_of_string toks.(3 + 2 * e))) :: !h
+        done;
+        Printf.printf "I %s %s %d\n" id
+          (match is_manifold !h with None -> "U" | Some true -> "1" | Some false -> "0")
+          (if halfedge_inv !h then 1 else 0)
+      end else
       if line = "PIPE" then begin
         print_string "PIPE";
         List.iter (fun b -> print_string (if b then " 1" else " 0")) pipeline_verdicts;
